@@ -1,5 +1,6 @@
 import Morlock.Model.BoardGame
 import Morlock.Model.EngineExplore
+import Morlock.Model.Minimax
 import Morlock.Spec.Search
 import Morlock.Driver.Game
 import Morlock.Driver.Score
@@ -9,6 +10,8 @@ open Morlock Morlock.Model
 structure SearchCfgM where
   ex : World → Explore
   le : LeafEval World
+  /-- `Minimax.Search` (pkg/search/minimax.go) instead of `AlphaBeta.Search`: no window, no table -/
+  minimax : Bool := false
   /-- the game searched (leaf evaluation): material unless stated otherwise -/
   game : ZTable → Game World := materialGame
 
@@ -28,6 +31,8 @@ def cfgModel (zt : ZTable) (name : String) : Option SearchCfgM :=
   | "bern-static" => some { ex := bernsteinExplore 7, le := .static, game := fun z => boardGame z bernsteinKey }
   -- the search the TUROCHAMP engine runs: full exploration, quiescence over the considerable moves (the predicate sees the
   -- board after the move), its own evaluation (position, side, castled flags) at the leaves
+  -- the repository's own reference search, `Minimax{Eval: Material}` (C12 anchors it: it must report a halt too)
+  | "minimax" => some { ex := constEx fullExploration, le := .static, minimax := true }
   | "turo-quiet" => some { ex := constEx fullExploration, le := turochampLeaf zt 64, game := fun z => boardGameW z turochampKey }
   | _ => none
 
@@ -43,6 +48,7 @@ def cfgSpec (name : String) : Option Spec.SearchCfg :=
   | "nup-quiet" => some ⟨specNotUnderPromo, some specIsCapture, leaf⟩
   | "bern-static" => some ⟨fun _ _ => true, none, leaf⟩   -- no reference for this configuration: always run as `bern-static~`
   | "turo-quiet" => some ⟨fun _ _ => true, none, leaf⟩    -- likewise: `turo-quiet~`
+  | "minimax" => some ⟨fun _ _ => true, none, leaf⟩       -- likewise: `minimax~`
   | _ => none
 
 def pvStr (pv : List Move) : String := if pv.isEmpty then "-" else String.intercalate "," (pv.map moveUci)
@@ -87,7 +93,7 @@ def searchItem (z : ZTable) (cm : SearchCfgM) (cs : Spec.SearchCfg) (noSpec : Bo
       | some d, some a, some b, some cancel =>
         let g := cm.game z
         let st0 : SState := { r.st with polls := 0, cancelAt := if cancel = 0 then none else some cancel, nodes := 0 }
-        let (res, st1) := alphaBetaSearch g cm.ex cm.le r.w d a b st0
+        let (res, st1) := if cm.minimax then Model.minimaxSearch g r.w d st0 else alphaBetaSearch g cm.ex cm.le r.w d a b st0
         -- side effect on the caller's board: a root without legal moves is adjudicated by the search
         -- (`AdjudicateNoLegalMoves`), unless the search never got there
         let rootBd := r.w.board 0
